@@ -2150,3 +2150,100 @@ func h5FormatIndex(ci ssa.CallInstruction) int {
 	}
 	return 0
 }
+
+// ---- round 5: a lookup helper that reports a miss as an error ---------------------------------------------
+
+// h5LookupErrSummary: fn makes a comma-ok registry lookup keyed by (a field of) one of its
+// parameters and turns the ok flag into an error result: EVERY return is either on the found
+// edge of that lookup, handing back the looked-up value with a nil error, or on the not-found
+// edge, handing back ErrMissingDialer itself (by identity). So at a call the error result is nil
+// exactly when the scheme was found, and the value result is then the registered dialer. The
+// summary gives the positions of the value (dIdx) and of the error (okIdx, errForm).
+func h5LookupErrSummary(fn *ssa.Function, pkg string, depth int) *c19LookupSum {
+	rets := returnsOf(fn)
+	res := fn.Signature.Results()
+	if len(rets) == 0 || res.Len() != 2 {
+		return nil
+	}
+	errT := types.Universe.Lookup("error").Type()
+	ei := -1
+	for i := 0; i < 2; i++ {
+		if types.Identical(res.At(i).Type(), errT) {
+			ei = i
+		}
+	}
+	if ei < 0 || types.Identical(res.At(1-ei).Type(), errT) {
+		return nil
+	}
+	di := 1 - ei
+	for _, l := range c19Lookups(fn, pkg, depth) {
+		kp := g6ParamIndex(fn, l.keyRoot)
+		if kp < 0 || l.errForm {
+			continue
+		}
+		good := true
+		for _, ret := range rets {
+			found, missed := false, false
+			for _, cd := range condsAt(ret.Block()) {
+				if ex, ok := cd.V.(*ssa.Extract); ok && ex.Tuple == l.tuple && ex.Index == l.okIdx {
+					found, missed = found || cd.Truth, missed || !cd.Truth
+				}
+			}
+			ev, dv := resOf(ret, ei), resOf(ret, di)
+			switch {
+			case found && !missed:
+				ex, ok := dv.(*ssa.Extract)
+				if !ok || ex.Tuple != l.tuple || ex.Index != l.dIdx || !isNilConst(ev) {
+					good = false
+				}
+			case missed && !found:
+				ld, ok := ev.(*ssa.UnOp)
+				if !ok || ld.Op != token.MUL || !strings.HasSuffix(pathOf(ld), pkg+".ErrMissingDialer") {
+					good = false
+				} else if _, isGlobal := ld.X.(*ssa.Global); !isGlobal {
+					good = false
+				}
+			default:
+				good = false // a return that is on neither edge of the lookup
+			}
+		}
+		if !good {
+			continue
+		}
+		via := fnName(fn)
+		if l.via != "" {
+			via += " -> " + l.via
+		}
+		return &c19LookupSum{dIdx: di, okIdx: ei, keyParam: kp, keySuffix: l.keySuffix, via: via, errForm: true}
+	}
+	return nil
+}
+
+// h5LookupEdge classifies a branch condition with respect to a registry lookup as seen from the
+// dispatching function: does it put the code on the found or on the not-found edge? For the plain
+// form that is the ok flag itself; for the error form it is a nil test of the helper's error.
+func h5LookupEdge(look *c19RegLookup, cd Cond) (found, notFound bool) {
+	isOK := func(v ssa.Value) bool {
+		ex, ok := v.(*ssa.Extract)
+		return ok && ex.Tuple == look.tuple && ex.Index == look.okIdx
+	}
+	if !look.errForm {
+		if isOK(cd.V) {
+			return cd.Truth, !cd.Truth
+		}
+		return false, false
+	}
+	b, ok := cd.V.(*ssa.BinOp)
+	if !ok || (b.Op != token.EQL && b.Op != token.NEQ) {
+		return false, false
+	}
+	x, y := b.X, b.Y
+	if isNilConst(x) {
+		x, y = y, x
+	}
+	if !isNilConst(y) || !isOK(x) {
+		return false, false
+	}
+	isNil := (b.Op == token.EQL) == cd.Truth
+	return isNil, !isNil
+}
